@@ -18,11 +18,16 @@ try:
 except Exception:                                            # pragma: no cover
     tlsrun = None
 
+NEW_OPS = ["sm9_sign_master_keygen", "sm9_enc_master_keygen", "sm9_smk_info_der", "sm9_smk_info_pem", "sm9_sk_info_der", "sm9_sk_info_pem",
+           "sm9_emk_info_der", "sm9_emk_info_pem", "sm9_ek_info_der", "sm9_ek_info_pem", "sm2_pkcs8_pem", "x509_req_sign", "x509_crl_sign",
+           "cms_sign_envelop", "cms_rcpt_info", "sm2_enc_precomp", "sm9_fp12_rand", "xmss_keygen"]
+SLOW = {"xmss_keygen"}                     # seconds per run under ASan: count + every draw index + one fresh pair only
+C19_ONLY_OPS = {"pkcs8_wrongpass", "tls_cbc_badmac"}
 OPS = ["sm2_keygen", "sm2_sign", "sm2_sign_ctx", "sm2_sign_ctx_multi", "sm2_encrypt", "sm2_ecdhe", "sm9_sign", "sm9_encrypt", "sm9_exchange",
        "pkcs8", "x509_sign", "cms_sign", "cms_envelop", "tls_cbc", "tls_record", "tls_random", "tls_pms",
-       "tls_ske_sign", "tls13_cv_sign", "tls13_padding"]
+       "tls_ske_sign", "tls13_cv_sign", "tls13_padding"] + NEW_OPS
 NOENT = ["cms_encrypt", "tls13_gcm"]
-HEAVY = {"sm9_sign", "sm9_encrypt", "sm9_exchange", "pkcs8"}
+HEAVY = {"sm9_sign", "sm9_encrypt", "sm9_exchange", "pkcs8"} | {o for o in NEW_OPS if o.startswith("sm9_") and o != "sm9_fp12_rand"} | {"sm2_pkcs8_pem", "xmss_keygen"}
 REPEAT = {"sm2_keygen": 1000, "sm2_sign": 1000, "sm2_encrypt": 1000, "sm2_ecdhe": 300, "sm2_sign_ctx": 100, "tls_cbc": 1000, "tls_record": 1000,
           "tls_random": 1000, "tls_pms": 1000, "x509_sign": 60, "cms_sign": 200, "cms_envelop": 200, "sm9_sign": 12, "sm9_encrypt": 12, "pkcs8": 6,
           "tls_ske_sign": 60, "tls13_cv_sign": 60}
@@ -54,7 +59,8 @@ def table_part(ctx):
     ctx.notes.append("rand-site table: %d functions in E, %d call sites, %s, %.1fs" % (
         len(stats["E"]), len(rows), {k: stats[k] for k in ("files", "cached", "parsed")}, time.time() - t0))
     res = tablecheck.run("C18", "RandSitesTable", "rand_sites", "(fun s => (site_key s ++ \"@\" ++ s_how s)%string)", "site_ok", "all_sites_checked",
-                         "forall s, In s rand_sites -> s_result_used s = true", "rand_table_sound")
+                         "forall s, In s rand_sites -> s_result_used s = true /\\ forall v, In v (s_fails s) -> exists t, In t (s_tests s) /\\ distinguishes t v = true",
+                         "rand_table_sound")
     ctx.cov["obligations"] += 1
     ctx.cov.setdefault("theorems", []).append({"name": "all_sites_checked (instance over coq/Gen/RandSitesTable.v, %s rows)" % res["rows"],
                                                "assumptions": [] if res["closed"] else None})
@@ -70,11 +76,127 @@ def table_part(ctx):
                       {"kind": "proof", "theorem_or_file": "all_sites_checked over coq/Gen/RandSitesTable.v", "detail": res["log"][-2000:]}, False)
     else:
         keys = site_keys(rows)
-        failing = [(k, r) for k, r in zip(keys, rows) if not r["used"]]
+        failing = [(k, r) for k, r in zip(keys, rows) if not rand_sites.py_site_ok(r)]
         if len(failing) != len(res["failing"]):
             ctx.violation("table:rand-mismatch", "Coq reports %d failing rows, the translator %d" % (len(res["failing"]), len(failing)),
                           {"kind": "proof", "theorem_or_file": "all_sites_checked", "detail": str(res["failing"])[:1500]}, False)
+    ctx._rand_stats = stats
     return failing
+
+
+def coverage_part(ctx, stats):
+    """Every exported function that depends on entropy must be reached by a harness operation under per-draw
+    injection: the list comes from the table (members of E with external linkage), the coverage from the ASTs of the
+    harness sources themselves (library functions called from op_* functions / the handshake role, closed under the
+    library call graph).  A function nobody reaches is a loud `uncovered:<function>` violation."""
+    import cast
+    t0 = time.time()
+    fdefs, E = stats["fdefs"], set(stats["E"])
+    fwd = {}
+    for callee, cs in stats["callers"].items():
+        for c in cs:
+            fwd.setdefault(c, set()).add(callee)
+    d = os.path.join(core.ROOT, "props", "C18")
+    inc = "-I%s -I%s/include -I%s/src -I%s" % (os.path.join(core.ROOT, "harness"), core.REPO, core.REPO, d)
+
+    def reached(src, roots, skip=("prepare", "prepare9", "make_sm2", "make_cert", "make_cert2", "make_pki", "prep")):
+        rec = cast.reduce_tu(os.path.join(d, src), inc, "", core.ROOT)
+        hg = {}
+        for c in rec["calls"]:
+            if c["callee"] and c["func"]:
+                hg.setdefault(c["func"], set()).add(c["callee"])
+        direct, seen, work = set(), set(), [f for f in hg if any(f == r or (r.endswith("*") and f.startswith(r[:-1])) for r in roots)]
+        while work:
+            f = work.pop()
+            if f in seen:
+                continue
+            seen.add(f)
+            for g in hg.get(f, ()):
+                if g in fdefs:
+                    direct.add(g)
+                elif g in hg and g not in skip:
+                    work.append(g)
+        out, work = set(), list(direct)
+        while work:
+            f = work.pop()
+            if f in out:
+                continue
+            out.add(f)
+            work.extend(g for g in fwd.get(f, ()) if g in fdefs and g not in out)
+        return out
+    try:
+        cov = reached("harness.c", ["op_*", "ctx_step", "do_recover"]) | reached("hs_harness.c", ["role"])
+    except Exception as e:
+        ctx.violation("coverage:analysis", "cannot analyse the harness sources: %r" % (e,), {"kind": "internal", "error": repr(e)}, False)
+        return
+    exported = sorted(f for f in E if f in fdefs and not fdefs[f].get("static"))
+    unc = [f for f in exported if f not in cov]
+    ctx.cov["exported_entropy_functions"] = exported
+    for f in exported:
+        ctx.cov["evaluations"] += 1
+        if f in cov:
+            ctx.cell("covered:" + ("api" if f in stats["header_decls"] else "internal"))
+    for f in unc:
+        ctx.violation("uncovered:" + f, "%s() (%s) depends on the entropy source and is exported, but no harness operation reaches it: its draws are never made to fail" % (
+            f, fdefs[f]["file"]), {"kind": "table-row", "theorem_or_file": "coverage of E by props/C18/harness.c + hs_harness.c", "row": {"function": f, "file": fdefs[f]["file"]}}, False)
+    # every randomised op the harness defines must be driven by this file
+    names = set()
+    for src in ("sysops.h", "harness.c"):
+        names |= set(re.findall(r'\{"(\w+)",\s*op_\w+,\s*1,', open(os.path.join(d, src)).read()))
+    for n in sorted(names - set(OPS) - C19_ONLY_OPS):
+        ctx.violation("uncovered-op:" + n, "harness operation %s is defined but not driven by props/C18/run.py" % n, {"kind": "internal", "error": n}, False)
+    ctx.notes.append("coverage: %d exported entropy-dependent functions, %d reached by harness operations, %.1fs" % (len(exported), len(exported) - len(unc), time.time() - t0))
+
+
+def urandom_part(ctx):
+    """wave 3: the gateway of the other build configuration.  cmake is configured (not built) with -DHAVE_GETENTROPY=OFF,
+    the rand*.c it selects (src/rand.c: /dev/urandom through stdio) is compiled into props/C18/ur_harness.c, which wraps
+    fopen/fread/fclose and scripts short reads, EOF, errno errors and open failure."""
+    import cast
+    t0 = time.time()
+    bdir = os.path.join(core.BUILD, "lib_nogetentropy")
+    if not os.path.exists(os.path.join(bdir, "build.ninja")):
+        rc, out = core.sh(["cmake", "-G", "Ninja", "-S", core.REPO, "-B", bdir, "-DBUILD_SHARED_LIBS=OFF", "-DCMAKE_C_COMPILER=gcc", "-DCMAKE_BUILD_TYPE=None",
+                           "-DHAVE_GETENTROPY=OFF"])
+        if rc != 0:
+            ctx.violation("urandom:configure", "cmake -DHAVE_GETENTROPY=OFF does not configure: " + out[-400:], {"kind": "correspondence", "log": out[-3000:]}, False)
+            return
+    gate = lambda lst: sorted(s[0] for s in lst if re.search(r"/src/rand[^/]*\.c$", s[0]) and "rdrand" not in s[0])
+    alt, dflt = gate(cast.source_list(core.BUILD, "nogetentropy")), gate(cast.source_list(core.BUILD, "asan"))
+    ctx.cov["entropy_gateways"] = {"default": [os.path.basename(x) for x in dflt], "HAVE_GETENTROPY=OFF": [os.path.basename(x) for x in alt]}
+    if not alt or alt == dflt:
+        ctx.notes.append("no alternative entropy back end is selected by -DHAVE_GETENTROPY=OFF (%s)" % alt)
+        return
+    exe, log = core.build_harness("C18ur", "asan", sources=[os.path.join(core.ROOT, "props", "C18", "ur_harness.c")] + alt,
+                                  extra="-Wl,--wrap=fopen,--wrap=fread,--wrap=fclose")
+    if exe is None:
+        ctx.violation("urandom:harness-build", "the /dev/urandom gateway does not build into the harness: " + log[-500:], {"kind": "correspondence", "log": log[-3000:]}, False)
+        return
+    cs = []
+    for n in (1, 16, 32, 46, 255, 256, 1000, 4096):
+        scripts = ["f", "e", "open", "xEINTR", "xEIO", "xEAGAIN", "s1,f", "s%d,f" % max(1, n - 1), "s%d,s%d,f" % (max(1, n // 2), max(1, n // 4)), "s%d,e" % max(1, n // 2),
+                   "s%d,xEINTR,f" % max(1, n // 3), "xEINTR,f", ",".join(["s1"] * min(n, 40)) + ",f", "s%d,s%d,s%d,s%d,f" % ((max(1, n // 5),) * 4)]
+        for sc in scripts:
+            cs.append(("ur %d %s" % (n, sc), "ur:len=%s:%s" % ("1" if n == 1 else ("<=256" if n <= 256 else ">256"), re.sub(r"\d+", "", sc)[:24])))
+    for n in (0, 4097, 100000):
+        cs.append(("ur %d f" % n, "ur:guard:len=%d" % n))
+    for sc in ("f", "s7,f", "s31,f", "e", "xEINTR", "s16,e", "open", "s1,s1,s1,f"):
+        cs.append(("urkey " + sc, "urkey:" + re.sub(r"\d+", "", sc)))
+    outs, err = core.run_lines(exe, [c[0] for c in cs], shards=2)
+    for (line, cell), o in zip(cs, outs):
+        ctx.cov["evaluations"] += 1
+        ctx.count("urandom")
+        guard = ":guard:" in cell
+        if o.startswith("EXACT") and not guard:
+            ctx.cell(cell + ":exact")
+        elif o.startswith("FAILED"):
+            ctx.cell(cell + ":ERR")
+        else:
+            ctx.violation("urandom:" + ("guard" if guard else line.split()[0]), "the /dev/urandom gateway (%s) %s: `%s` -> %s" % (
+                ",".join(os.path.basename(x) for x in alt), "accepts a length outside its guard" if guard else "reports success with bytes the device did not deliver", line, o[:200]),
+                {"kind": "failing-input", "op": line, "impl": o, "expected": "FAILED, or EXACT (every byte of the result delivered by the device, in order)", "variant": "asan+rand.c",
+                 "stderr": err[-1200:] if o.startswith("FAULT") else ""}, True)
+    ctx.notes.append("urandom back end (%s): %d scripted-device cases in %.1fs" % (",".join(os.path.basename(x) for x in alt), len(cs), time.time() - t0))
 
 
 def phase1(ctx):
@@ -86,7 +208,8 @@ def phase1(ctx):
         for _ in range(nseed):
             sd = r.below(10**6) + 256
             cs.append(("count %s %d" % (op, sd), "count:" + op))
-            cs.append(("det %s %d" % (op, sd), "det:" + op))
+            if op not in SLOW:
+                cs.append(("det %s %d" % (op, sd), "det:" + op))
         for _ in range(1 if op in HEAVY and not thorough else 3):
             a = r.below(10**6) + 256
             cs.append(("fresh %s %d %d" % (op, a, a + 1 + r.below(200)), "fresh:" + op))
@@ -117,6 +240,7 @@ def run(ctx):
         core.harness_build_failed(ctx, log)
         return ctx.finish(level="proof", rule="library build failed")
     failing = table_part(ctx)
+    coverage_part(ctx, ctx._rand_stats)
     witnessed = {}                       # site key -> (op line, observed)
     exe, log = core.build_harness("C18", "asan")
     if exe is None:
@@ -159,7 +283,7 @@ def run(ctx):
                         bad = "draws=%d but the operation is %sexpected to use entropy" % (k, "not " if op in NOENT else "")
                     sd = line.split()[2]
                     idx = list(range(k)) + [-2] if k else []
-                    if k and op not in ("sm2_sign_ctx_multi",):
+                    if k and op not in ("sm2_sign_ctx_multi",) and op not in SLOW:
                         heavy = op in HEAVY
                         eidx = [0] if heavy else sorted({0, k // 2, k - 1})
                         for i in eidx:
@@ -235,6 +359,7 @@ def run(ctx):
             ctx.violation("failopen:%s" % op, "entropy failure at draw %s not reported: `%s` -> %s" % ("(all)" if i == -2 else i, line, o[:200]),
                           {"kind": "failing-input", "op": line, "impl": o, "expected": "FAILCLOSED (return value != 1)", "variant": "asan",
                            "stderr": err2[-1200:] if o.startswith("FAULT") else ""}, True)
+    urandom_part(ctx)
     if tlsrun is not None:
         try:
             tlsrun.c18_handshakes(ctx, failing, witnessed)
@@ -243,7 +368,12 @@ def run(ctx):
     else:
         ctx.notes.append("the three handshakes x two roles are not executed here; their call sites are decided by the table only")
     for key, r in failing:
-        text = "%s:%d %s() ignores the status of %s (%s)" % (r["file"], r["line"], r["fn"], r["callee"], r["how"])
+        if not r["used"]:
+            text = "%s:%d %s() ignores the status of %s (%s)" % (r["file"], r["line"], r["fn"], r["callee"], r["how"])
+        else:
+            bad = [v for v in r["fails"] if not any(rand_sites.py_distinguishes(t, v) for t in r["tests"])]
+            text = "%s:%d %s() tests the status of %s with %s, which does not tell its failure value(s) %s from success" % (
+                r["file"], r["line"], r["fn"], r["callee"], r["tests"], bad)
         hit = witnessed.get(key)
         if hit:
             ctx.violation(key, text + "; observed: `%s` -> %s" % (hit[0], hit[1][:150]),
